@@ -65,6 +65,9 @@ var handK = []string{
 	`var a=1; def b "nm" { x = a+2.5; print "s"+x } bind b->struct`,
 	"var domain = \"acme.com\"\nvar default_port    = 8400\nvar local_port_base = default_port + 1000\n\ndef tunnel \"myservice-prod\" {\n\thost = \"prod\" + \".\" + domain\n\tlocal_port  = local_port_base + 1\n\tremote_port = default_port\n\tenabled = true\n\n\tdef extras {\n\t\tmax_latency = 8.5 # [ms]\n\t}\n}\n\nbind tunnel -> struct\n",
 	"# comment only",
+	// strings longer in bytes than in characters (on the stack, in fields, as names)
+	`var s = "` + rep("界", 30) + `"; print s + "` + rep("я", 40) + `"; def b "` + rep("😀", 20) + `" { f = s + s; g = NAME }`,
+	`print "` + rep("é", 33) + `" + "x"; print "` + rep("界", 22) + `" == "` + rep("界", 63) + `"`,
 	// escapes that put bytes into a string which are not UTF-8
 	`print "\xff"`, `print "caf\xe9" + "\xe2\x82"`, `def b "\xc0\xaf" { f = "\377\376"; g = NAME }` + "\nbind b -> struct", `var sep = "\xa0"; print "head \x80 tail" + sep; print "\x00\x7f\u00e9\U0001F600"`,
 	"# c1\nprint 1 # c2\r\nprint 2\r\n",
